@@ -30,8 +30,9 @@ REQUIRED_COUNTERS = ["scenarios", "transfers", "fetches", "purges", "announcemen
 
 def gen_scenario(rng, shard_no, slot, index):
     nh = rng.choice([2, 2, 3])
-    base = 18000 + (shard_no * 8 + slot) * 40
-    hid = f"d{shard_no:x}{index % 4096:03x}"
+    from vlib.common import ports
+    block, base = ports.acquire()
+    hid = f"d{block:03x}"
     hosts = [{"id": f"{hid}{h}", "maddress": f"tcp://localhost:{base + 1 + h * 10}", "daddress": f"tcp://localhost:{base + 2 + h * 10}", "shm_port": base + 3 + h * 10} for h in range(nh)]
     ids = [h["id"] for h in hosts]
     plan_class = rng.choice(["none", "loss", "loss", "dup", "delay", "mixed", "mixed"])
@@ -101,7 +102,7 @@ def gen_scenario(rng, shard_no, slot, index):
             tp.add((c["ds"], c["host"]))
         clean.append(c)
     spec = {"tmp": tempfile.mkdtemp(prefix=f"v07-{hid}-"), "seed": f"{shard_no}/{index}", "hosts": hosts, "caddress": f"tcp://localhost:{base}", "plan": plan,
-            "datasets": datasets, "commands": clean, "settle_s": 8.0, "source_purge_after_accept": True}
+            "datasets": datasets, "commands": clean, "settle_s": 8.0, "source_purge_after_accept": True, "port_block": block}
     return spec, plan_class, kinds
 
 
@@ -111,6 +112,8 @@ def run_scenario(col: Collector, rng, shard_no, slot, index):
     if not spec["commands"]:
         col.case(shape=("empty",), nontrivial=False)
         import shutil
+        from vlib.common import ports
+        ports.release(spec["port_block"])
         shutil.rmtree(spec["tmp"], ignore_errors=True)
         return
     fd, path = tempfile.mkstemp(prefix="v07spec", suffix=".json")
@@ -134,6 +137,8 @@ def run_scenario(col: Collector, rng, shard_no, slot, index):
         os.unlink(path)
         import glob
         import shutil
+        from vlib.common import ports
+        ports.release(spec["port_block"])
         shutil.rmtree(spec["tmp"], ignore_errors=True)
         for h in spec["hosts"]:
             for s in glob.glob(f"/dev/shm/sCasc{h['id']}*"):
